@@ -79,11 +79,11 @@ example : convert 100 5 9223372036854775807 2 0 1 0 = none := by decide  -- over
     block (status written / replay mark / not computable) — it cannot be passed over and picked
     up by a later one. Block-level statement, proved in `Proofs/Holding.lean`. -/
 theorem executes_at_first_rated_block {P : Params} {c : DB} {b : Block} {avgs : TMap} {s' : DB}
-    (hrun : blockTx P c b avgs c = .ok () s') (htx : b.height ≥ P.act.txConv) :
+    (hpos : 0 < b.height) (hrun : blockTx P c b avgs c = .ok () s') (htx : b.height ≥ P.act.txConv) :
     (∃ s1 s2 st, gradeAndRates P c b s1 = .ok st s2 ∧ st ≠ .cont true) ∨
     ∃ rates, ∀ row ∈ c.holding, (c.mostRecentRatesBefore b.height).2 ≤ row.height → row.height < b.height →
       Considered P b.height rates avgs c s' row.entry :=
-  block_considers_held hrun htx
+  block_considers_held hpos hrun htx
 
 end Pegnet.C07
 
